@@ -139,4 +139,85 @@ theorem tree_below {h : Heap} (hinv : Inv h) (hac : Acyclic h) (hw : WF h) :
         · exact key hc hd hne h1
         · exact key hd hc (Ne.symm hne) h1
 
+/-- pigeonhole: a list of distinct naturals below `N` has at most `N` elements -/
+theorem nodup_length_le : ∀ (N : Nat) (l : List Nat), l.Nodup → (∀ x ∈ l, x < N) → l.length ≤ N := by
+  intro N
+  induction N with
+  | zero =>
+    intro l _ hb
+    cases l with
+    | nil => simp
+    | cons a l => exact absurd (hb a (by simp)) (Nat.not_lt_zero _)
+  | succ N ih =>
+    intro l hn hb
+    have h1 : (l.erase N).Nodup := hn.sublist (List.erase_sublist)
+    have h2 : ∀ x ∈ l.erase N, x < N := by
+      intro x hx
+      have := (List.Nodup.mem_erase_iff hn).mp hx
+      have := hb x this.2
+      omega
+    have := ih (l.erase N) h1 h2
+    have hl : l.length ≤ (l.erase N).length + 1 := by
+      by_cases hm : N ∈ l
+      · rw [List.length_erase_of_mem hm]; omega
+      · rw [List.erase_of_not_mem hm]; omega
+    omega
+
+/-- either the unfolding to depth `g` still contains a full-length path (so at least `g + 1` nodes) or it is complete -/
+theorem deep_or_complete (m : LL) : ∀ (g : Nat) (s : Nat),
+    g + 1 ≤ (abs g m s).ids.length ∨ abs g m s = abs (g + 1) m s := by
+  intro g
+  induction g with
+  | zero =>
+    intro s; left
+    simp only [abs]; split <;> simp [Tree.ids, idsL]
+  | succ g ih =>
+    intro s
+    by_cases hk : m.kind s = .text
+    · right; rw [abs_text hk, abs_text hk]
+    · rw [abs_succ_node hk g, abs_succ_node hk (g + 1)]
+      by_cases hex : ∃ c ∈ m.kids s, g + 1 ≤ (abs g m c).ids.length
+      · left
+        obtain ⟨c, hc, hlen⟩ := hex
+        simp only [Tree.ids, List.length_cons]
+        have key : ∀ (l : List Nat), c ∈ l → (abs g m c).ids.length ≤ (idsL (l.map (abs g m))).length := by
+          intro l
+          induction l with
+          | nil => intro hm; cases hm
+          | cons d ds ihd =>
+            intro hm
+            simp only [List.map_cons, idsL, List.length_append]
+            rcases List.mem_cons.mp hm with e | hm'
+            · subst e; omega
+            · have := ihd hm'; omega
+        have := key (m.kids s) hc
+        omega
+      · right
+        congr 1
+        apply List.map_congr_left
+        intro c hc
+        rcases ih c with h1 | h1
+        · exact absurd ⟨c, hc, h1⟩ hex
+        · exact h1
+
+/-- **the recursion fuel suffices**: in a well-formed acyclic heap with correct parent links, unfolding a non-fragment
+    node to a depth of at least the number of allocated nodes gives the whole tree -/
+theorem unfolding_complete {h : Heap} (hinv : Inv h) (hac : Acyclic h) (hw : WF h) (s : Nat) (hk : h.kind s ≠ .frag)
+    (hs : s < (h.next : Nat)) (g : Nat) (hg : (h.next : Nat) ≤ g) :
+    abs g (toLL h) s = abs (g + 1) (toLL h) s := by
+  rcases deep_or_complete (toLL h) g s with h1 | h1
+  · have hnd := tree_below hinv hac hw g s hk hs
+    have hlt := nodup_length_le h.next _ hnd (fun i hi => abs_ids_lt hw.1 g s hs i hi)
+    omegaId
+  · exact h1
+
+theorem unfolding_stable {h : Heap} (hinv : Inv h) (hac : Acyclic h) (hw : WF h) (s : Nat) (hk : h.kind s ≠ .frag)
+    (hs : s < (h.next : Nat)) (g : Nat) (hg : (h.next : Nat) ≤ g) : ∀ k : Nat, abs (g + k) (toLL h) s = abs g (toLL h) s := by
+  intro k
+  induction k with
+  | zero => rfl
+  | succ k ih =>
+    rw [← ih]
+    exact (unfolding_complete hinv hac hw s hk hs (g + k) (by omegaId)).symm
+
 end PlasVerif.Proofs.DomTreeBelow
